@@ -491,6 +491,7 @@ type Rig struct {
 	RevResTaint  bool              // a reverted block carried a revised-and-resolved contract
 	Panicked     bool
 	PanicMsg     string
+	V2Batches    int // batches submitted through AddValidatedV2Blocks
 	Applies      int
 	Reverts      int
 	UnstableRevs int
@@ -803,6 +804,18 @@ func (r *Rig) CompareWithTwin(when string) {
 			fail("bucket-differs-from-twin:"+bucket, "bucket %s differs from the linear node: %s", bucket, d)
 		}
 	}
+	// the state stored for every block of the best chain (what a later revert down to that block,
+	// or a restart on it, resumes from)
+	for h := uint64(0); h <= tipIdx.Height; h++ {
+		ci, _ := nd.CM.BestIndex(h)
+		a, oka := nd.Store.State(ci.ID)
+		b, okb := tw.nd.Store.State(ci.ID)
+		if oka != okb || !bytes.Equal(encode(a), encode(b)) {
+			id, _ := r.T.Lookup(ci.ID)
+			fail("stored-state-differs-from-twin", "State(%d) of the best-chain block at height %d differs from the one the linear node stores (present %v/%v, %d vs %d accumulator leaves)", id, h, oka, okb, a.Elements.NumLeaves, b.Elements.NumLeaves)
+			break
+		}
+	}
 	// what the store hands out
 	if !bytes.Equal(encode(nd.CM.TipState()), encode(tw.nd.CM.TipState())) {
 		fail("tip-state-differs-from-twin", "TipState differs from the linear node's")
@@ -863,6 +876,54 @@ func (r *Rig) Submit(batch []int) (res string) {
 		return "err"
 	}
 	return "ok"
+}
+
+// PreValidated reports whether batch is what an honest syncer hands to AddValidatedV2Blocks: a
+// parent-linked run of fully valid v2-only blocks above the require height.
+func PreValidated(t *chainx.Tree, batch []int) bool {
+	for k, id := range batch {
+		if id <= 0 || id >= len(t.Blocks) {
+			return false
+		}
+		b := t.Blocks[id]
+		if b.Parent == chainx.OrphanParent || !t.AllValid(id) || !b.V2 || b.Height <= t.Net.N.HardforkV2.RequireHeight || len(b.Block.Transactions) > 0 {
+			return false
+		}
+		if k > 0 && b.Parent != batch[k-1] {
+			return false
+		}
+	}
+	return len(batch) > 0
+}
+
+// SubmitV2 hands the batch to AddValidatedV2Blocks with the full post-block states computed on
+// linear twins (the pre-validated path of the syncer), recovering a panic.
+func (r *Rig) SubmitV2(batch []int) (res string) {
+	defer debug.SetPanicOnFault(debug.SetPanicOnFault(true))
+	defer func() {
+		if p := recover(); p != nil {
+			r.Panicked = true
+			r.PanicMsg = firstLine(fmt.Sprint(p))
+			res = "panic"
+		}
+	}()
+	states := make([]consensus.State, len(batch))
+	for i, id := range batch {
+		states[i] = r.T.Blocks[id].Full
+	}
+	if err := r.Node.CM.AddValidatedV2Blocks(r.T.Get(batch), states); err != nil {
+		return "err"
+	}
+	return "ok"
+}
+
+// SubmitVia uses the pre-validated path when v2 is set (and the batch qualifies), AddBlocks otherwise.
+func (r *Rig) SubmitVia(batch []int, v2 bool) string {
+	if v2 && PreValidated(r.T, batch) {
+		r.V2Batches++
+		return r.SubmitV2(batch)
+	}
+	return r.Submit(batch)
 }
 
 // Prelude writes the block declarations and the genesis observation.
